@@ -166,6 +166,10 @@ func c20SetBitsExp(c *hx.Ctx, r *hx.RNG) {
 // c20BitsExp: the pair returned by BitsExp denotes exactly the magnitude, checked
 // against an independent read-out of the same value ('p' format text).
 func c20BitsExp(c *hx.Ctx, r *hx.RNG) {
+	if r.Chance(25) {
+		c20BitsExpSpecial(c, r)
+		return
+	}
 	l := hx.LimitsFor("quick")
 	v := r.Finite(r.Range(1, 200), r.LeadExp())
 	if r.Chance(30) { // low zero words in the stored mantissa
@@ -415,4 +419,63 @@ func c20SetMantExp(c *hx.Ctx, r *hx.RNG) {
 		o = oracle.Ident(v)
 	}
 	valueVerdict(c, what, o, got, int64(mp), mm, "")
+}
+
+// c20BitsExpSpecial: a zero or an infinity that held a finite value before denotes magnitude 0 / has no mantissa:
+// BitsExp must not hand out the digits of the previous value, and feeding its result back must not resurrect them.
+func c20BitsExpSpecial(c *hx.Ctx, r *hx.RNG) {
+	v := r.Finite(r.Range(1, 80), r.LeadExp())
+	x := hx.Mk(v, digitsOf(v)+uint(r.Intn(10)), r.Mode())
+	how := r.Intn(7)
+	name := []string{"SetPrec(0)", "SetUint64(0)", "Sub(x,x)", "Mul(x,0)", "SetMantExp underflow", "SetMantExp overflow", "SetInf"}[how]
+	wantInf := false
+	pi := hx.Try(func() {
+		switch how {
+		case 0:
+			x.SetPrec(0)
+		case 1:
+			x.SetUint64(0)
+		case 2:
+			x.Sub(x, x)
+		case 3:
+			x.Mul(x, new(decimal.Decimal))
+		case 4:
+			x.SetMantExp(x, math.MinInt32)
+			if !x.IsZero() { // the value was large: push again
+				x.SetMantExp(x, math.MinInt32)
+			}
+		case 5:
+			x.SetMantExp(x, math.MaxInt32)
+			if !x.IsInf() { // the value was tiny: push again
+				x.SetMantExp(x, math.MaxInt32)
+			}
+			wantInf = true
+		default:
+			x.SetInf(r.Bool())
+			wantInf = true
+		}
+	})
+	what := fmt.Sprintf("BitsExp after %s on a variable that held %s", name, v.Full())
+	c.Note(what)
+	c.Eval(hx.HashStr(what), true, "BitsExp/after-"+name)
+	if pi != nil {
+		c.Violate("panic", fmt.Sprintf("%s: %s panic %q", what, pi.Class, pi.Text), "")
+		return
+	}
+	if x.IsInf() != wantInf || (!wantInf && !x.IsZero()) {
+		c.Inconclusive(what + ": the variable did not become the special value the step was meant to produce")
+		return
+	}
+	m, _ := x.BitsExp()
+	if len(m) != 0 {
+		c.Violate("stale-mantissa", fmt.Sprintf("%s: BitsExp returns %d mantissa word(s) %v for a zero/infinity", what, len(m), m), "")
+		return
+	}
+	if !wantInf {
+		m2, e2 := x.BitsExp()
+		z := new(decimal.Decimal).SetPrec(40).SetBitsExp(m2, int64(e2))
+		if !z.IsZero() {
+			c.Violate("stale-mantissa", fmt.Sprintf("%s: SetBitsExp(BitsExp(x)) = %s, want 0", what, hx.RawOf(z)), "")
+		}
+	}
 }
